@@ -372,6 +372,9 @@ func (w *world) attestations() []any {
 	if g.R.Intn(2) == 0 {
 		va = append(va, J{"id": S(77), "va": S(w.now - 1)})
 	}
+	if g.R.Intn(5) == 0 {
+		va = []any{} // the predecessor never had a channel: nil map in the decoded retirement report
+	}
 	return []any{J{"bytes": hexs(validToken), "rr": J{"version": S(w.version), "va": va}}}
 }
 
